@@ -374,6 +374,11 @@ func (d *Def) getMethodNameAndSetIsStatic(
 				ctx.IsDefineStatic,
 			)
 
+		// def unknown_object.method
+		if objectT == nil {
+			objectT = base.MakeUnknown()
+		}
+
 		if objectT.ID == "" {
 			objectT.ID = base.GenId()
 		}
@@ -694,7 +699,7 @@ func (d *Def) Evaluation(
 	methodT := d.makeDefineMethodT(p, ctx, method, args, returnT, isBlockGiven)
 
 	// def hoge= || def [] || def []=
-	if method[len(method)-1] == '=' || method == "[]" || method == "[]=" {
+	if method != "" && (method[len(method)-1] == '=' || method == "[]" || method == "[]=") {
 		for _, arg := range args {
 			base.SetValueT(
 				methodT.DefinedFrame,
